@@ -216,6 +216,7 @@ def run(sc: Dict[str, Any]) -> Dict[str, Any]:
                 d["outpos"] = int(ops_[0])
                 d["calls"] = len(ops_)
                 d["outpos_same"] = len(set(ops_)) <= 1
+                d["outpos_sum"] = int(sum(ops_))
                 E["L"].append(d)
         except Exception as e:
             E["export_ok"] = False
